@@ -278,21 +278,23 @@ def dfa_isomorphic1(D1: DFA, D2: DFA) -> bool:
     F2 = D2.F
 
     matching = {}
+    inverse = {}
     todo = {(D1.q0, D2.q0)}
 
     while len(todo) > 0:
         (q1, q2) = set_element(todo)
         todo.remove((q1, q2))
+        if q1 in matching or q2 in inverse:
+            # the matching must be a function in both directions
+            if matching.get(q1) != q2 or inverse.get(q2) != q1:
+                return False
+            continue
         if (q1 in F1) != (q2 in F2):
             return False
         matching[q1] = q2
+        inverse[q2] = q1
         for a in Sigma:
-            q1_ = D1.delta[q1, a]
-            q2_ = D2.delta[q2, a]
-            if q1_ not in matching:
-                todo.add((q1_, q2_))
-            elif q2_ != matching[q1_]:
-                return False
+            todo.add((D1.delta[q1, a], D2.delta[q2, a]))
 
     return True
 
